@@ -102,7 +102,7 @@ class C13(Sim):
             "polyline split) and >= 1 observation")
     FAULT_KINDS = ["warm", "reject"]
     PROBES = ["polygon_input", "quad_input", "closed_surface", "bordered_surface", "multi_op_block", "second_block", "area_checked", "centre_checked",
-              "input_observed", "result_observed", "volume_block", "polyline_split", "face_centre_split_interior", "sdbet", "int_coordinates", "exception_leaves_block", "boundary_of_refined_volume", "non_list_rows", "boundary_data_carried_over"]
+              "input_observed", "result_observed", "volume_block", "polyline_split", "face_centre_split_interior", "sdbet", "int_coordinates", "exception_leaves_block", "boundary_of_refined_volume", "non_list_rows", "boundary_data_carried_over", "other_block_in_between"]
     QUICK_RUNS = 2500
     THOROUGH_RUNS = 250000
     BLOCK = 20
@@ -189,6 +189,7 @@ class C13(Sim):
         self.nblocks = 0
         self.nobs = 0
         self.warmed = False
+        self.others = getattr(self, "others", [])
         self.opseq = []
         if self.kind == "surface":
             ar = {len(f) for f in w["faces"]}
@@ -227,9 +228,13 @@ class C13(Sim):
                 # exception leaves the block (Python hands it to __exit__)
                 name = r.choice(["triangulate_face", "split_face_as_fan"] if self.kind == "surface" else ["cell_fan", "face_center"])
                 return {"c": "editor", "op": "sop_bad", "name": name, "past_end": r.choice([0, 1, 7])}
+            if r.chance(0.06):
+                return {"c": "bystander", "op": "other_block", "vol": self.kind == "tets"}
             return self._prop_sop(r)
         # no block open
         choices = ["open", "open"]
+        if r.chance(0.05):
+            return {"c": "bystander", "op": "other_block", "vol": self.kind == "tets"}
         if not self.warmed and cfg["faults_on"] and r.chance(cfg["warm_p"]):
             return {"c": "warmer", "op": "warm", "qseed": r.below(1 << 30), "n": r.randint(1, 6)}
         if self.nblocks >= 1:
@@ -293,6 +298,8 @@ class C13(Sim):
         op = ev["op"]
         if self.kind == "polyline":
             return op in ("split_edge", "observe_polyline") and (op != "split_edge" or ev["e"] < len(self.cur.edges))
+        if op == "other_block":
+            return True
         if op == "sop_bad":
             return self.editor is not None and (ev["name"] in ("cell_fan", "face_center")) == (self.kind == "tets")
         if op in ("sop", "close"):
@@ -459,6 +466,32 @@ class C13(Sim):
         self.calls += 1
         M = self.M
         op = ev["op"]
+        if op == "other_block":
+            # ANOTHER mesh goes through an editing block of its own (possibly while this run's block is open), and is kept alive:
+            # nothing of it may show in the mesh under test
+            from mouette.mesh.mesh_data import RawMeshData
+            self.probes["other_block_in_between"] += 1
+
+            def other():
+                d = RawMeshData()
+                if ev.get("vol"):
+                    d.vertices += [[0.0, 0.0, 9.0], [1.0, 0.0, 9.0], [0.0, 1.0, 9.0], [0.0, 0.0, 10.0], [1.0, 1.0, 10.0]]
+                    d.cells += [[0, 1, 2, 3], [1, 2, 3, 4]]
+                    m_ = M.mesh.VolumeMesh(d)
+                    with M.mesh.VolumeSubdivision(m_) as ed:
+                        ed.split_cell_as_fan(0)
+                else:
+                    d.vertices += [[0.0, 0.0, 9.0], [1.0, 0.0, 9.0], [1.0, 1.0, 9.0], [0.0, 1.0, 9.0], [2.0, 0.5, 9.0]]
+                    d.faces += [[0, 1, 2, 3], [1, 4, 2]]
+                    m_ = M.mesh.SurfaceMesh(d)
+                    with M.mesh.SurfaceSubdivision(m_) as ed:
+                        ed.triangulate()
+                        ed.split_face_as_fan(0)
+                return m_
+            o = call(other)
+            if o.ok:
+                self.others.append(o.value)
+            return "other-block"
         if op == "warm":
             self._query(self.cur, ev["qseed"], ev["n"], "connectivity-before-editing", "input")
             self.warmed = True
